@@ -198,9 +198,213 @@ example :
     let app : Req → AppResp := fun q =>
       if q.id = 0 then ⟨some 3, [[1, 2], [3, 4]], false⟩ else if q.id = 1 then ⟨none, [[5], [], [6, 7]], false⟩
       else if q.id = 2 then ⟨none, [], true⟩ else if q.id = 3 then ⟨some 9, [], false⟩ else ⟨none, [], false⟩
-    (run app (initSys [⟨0, false⟩, ⟨1, false⟩, ⟨2, false⟩, ⟨3, true⟩, ⟨4, false⟩])
+    (run app (initSys [⟨0, false, false⟩, ⟨1, false, false⟩, ⟨2, false, false⟩, ⟨3, true, false⟩, ⟨4, false, false⟩])
         ([.server, .server, .client, .client, .client, .server] ++ alternate 20)).c.responses
       = [⟨0, 0, [1, 2, 3]⟩, ⟨1, 1, [5, 6, 7]⟩, ⟨2, 2, []⟩, ⟨3, 3, []⟩, ⟨4, 4, []⟩] := by
   decide +kernel
+
+/-! ## `Connection: close` inside a pipeline (pipeline-level model) -/
+
+theorem serveItems_eq (tag : Tag) (ps : List Bytes) : ∀ r : Responder, serveItems r tag ps = futureFrom r tag ps := by
+  induction ps with
+  | nil => intro r; rfl
+  | cons p ps ih => intro r; simp only [serveItems, futureFrom, ih]
+
+/-- does the pipeline end with `q`?  It carries `Connection: close`, or the client cannot complete its response -/
+def endsConn (app : Req → AppResp) (q : Req) : Bool :=
+  q.close || (clientTake q (serveOne (app q) q).1).isNone
+
+/-- the requests the server gets to handle: up to and including the first one that ends the pipeline -/
+def handled (app : Req → AppResp) : List Req → List Req
+  | [] => []
+  | q :: rest => if endsConn app q then [q] else q :: handled app rest
+
+theorem handled_prefix (app : Req → AppResp) (reqs : List Req) : handled app reqs <+: reqs := by
+  induction reqs with
+  | nil => exact List.prefix_refl _
+  | cons q rest ih =>
+    simp only [handled]
+    split
+    · exact ⟨rest, rfl⟩
+    · obtain ⟨t, ht⟩ := ih
+      exact ⟨t, by simp [ht]⟩
+
+theorem serveOne_close (a : AppResp) (q : Req) : (serveOne a q).2 = q.close := rfl
+
+/-- **C31, a pipeline stops at the first connection-ending request** (every application, every mix of
+`Connection: close` requests, any number of requests): the requests the server handles are a prefix of the requests,
+in order — all of them if none ends the pipeline, otherwise exactly those up to and including the first that does;
+every later request is never handled (and so never answered); what the client delivers is, request by request and in
+order, what it makes of the items written for each handled request; no handled request before the last one ended
+the pipeline; and the server closes the connection iff a handled request carried `Connection: close`. -/
+theorem C31_pipeline_stops_at_first_end (app : Req → AppResp) (reqs : List Req) :
+    (pipeline app reqs).1 = (handled app reqs).map (fun q => (q, clientTake q (serveOne (app q) q).1))
+    ∧ handled app reqs <+: reqs
+    ∧ ((∀ q ∈ reqs, endsConn app q = false) → handled app reqs = reqs ∧ (pipeline app reqs).2 = true)
+    ∧ (∀ q ∈ (handled app reqs).dropLast, endsConn app q = false)
+    ∧ ((pipeline app reqs).2 = false ↔ ∃ q ∈ handled app reqs, q.close = true) := by
+  refine ⟨?_, handled_prefix app reqs, ?_, ?_, ?_⟩
+  · induction reqs with
+    | nil => rfl
+    | cons q rest ih =>
+      simp only [pipeline, handled, endsConn, serveOne_close]
+      by_cases h : (q.close || (clientTake q (serveOne (app q) q).1).isNone) = true
+      · simp [h]
+      · simp only [Bool.not_eq_true] at h
+        simp only [h, Bool.false_eq_true, if_false, List.map_cons, ih]
+  · induction reqs with
+    | nil => intro _; exact ⟨rfl, rfl⟩
+    | cons q rest ih =>
+      intro ha
+      have hq : endsConn app q = false := ha q (by simp)
+      have := ih (fun x hx => ha x (by simp [hx]))
+      simp only [handled, hq, Bool.false_eq_true, if_false, this.1, pipeline, serveOne_close]
+      unfold endsConn at hq
+      simp only [hq, Bool.false_eq_true, if_false, this.2, and_self]
+  · induction reqs with
+    | nil => intro q hq; cases hq
+    | cons q rest ih =>
+      simp only [handled]
+      by_cases h : endsConn app q = true
+      · simp [h]
+      · simp only [Bool.not_eq_true] at h
+        simp only [h, Bool.false_eq_true, if_false]
+        intro x hx
+        cases hr : handled app rest with
+        | nil => simp [hr] at hx
+        | cons y ys =>
+          rw [hr, List.dropLast_cons_cons] at hx
+          simp only [List.mem_cons] at hx
+          rcases hx with rfl | hx
+          · exact h
+          · exact ih x (by rw [hr]; exact hx)
+  · induction reqs with
+    | nil => simp [pipeline, handled]
+    | cons q rest ih =>
+      simp only [pipeline, handled, serveOne_close]
+      by_cases h : endsConn app q = true
+      · have h' := h
+        unfold endsConn at h'
+        simp only [h', if_true, h, List.mem_singleton, exists_eq_left]
+        cases q.close <;> simp
+      · simp only [Bool.not_eq_true] at h
+        have h' := h
+        unfold endsConn at h'
+        simp only [h', Bool.false_eq_true, if_false, h, List.mem_cons, exists_eq_or_imp, ih]
+        have hc : q.close = false := by
+          cases hq : q.close with
+          | false => rfl
+          | true => simp [hq] at h'
+        simp [hc]
+
+/-- for a well-behaved application the client delivers the expected response of the step model -/
+theorem clientTake_good (app : Req → AppResp) (q : Req) (hwf : WFReq app q) :
+    clientTake q (serveOne (app q) q).1 = some (expected app q) := by
+  have hrt := stream_roundtrip (tagOf app q) (app q) (by unfold WFReq at hwf; simpa [tagOf] using hwf)
+  unfold clientTake serveOne
+  simp only []
+  rw [serveItems_eq]
+  have : (({ chunkable := true } : Responder).start (app q).cl) = fresh.start (app q).cl := rfl
+  rw [this]
+  have ht : ((q.id, q.head || (app q).bodyless) : Tag) = tagOf app q := rfl
+  rw [ht, hrt]
+  cases hb : bodylessFor app q <;> simp [tagOf, expected, bodyFor, hb]
+
+/-- the requests up to and including the first one that carries `Connection: close` -/
+def uptoClose : List Req → List Req
+  | [] => []
+  | q :: rest => if q.close then [q] else q :: uptoClose rest
+
+/-- **C31, `Connection: close` inside a pipeline** (every well-behaved application, any number of requests, close
+requests at any positions): the requests up to and including the first one with `Connection: close` are answered, each
+with its expected response — the one the step model delivers —, in order; no later request is handled or answered; and
+the server closes the connection iff some request asked for it. -/
+theorem C31_close_ends_pipeline (app : Req → AppResp) (reqs : List Req) (hwf : ∀ q ∈ reqs, WFReq app q) :
+    (pipeline app reqs).1 = (uptoClose reqs).map (fun q => (q, some (expected app q)))
+    ∧ ((pipeline app reqs).2 = true ↔ ∀ q ∈ reqs, q.close = false) := by
+  induction reqs with
+  | nil => exact ⟨rfl, by simp [pipeline]⟩
+  | cons q rest ih =>
+    have hq := clientTake_good app q (hwf q (by simp))
+    have hrest := ih (fun x hx => hwf x (by simp [hx]))
+    simp only [pipeline, uptoClose, serveOne_close, hq, Option.isNone_some, Bool.or_false]
+    cases hc : q.close with
+    | true => simp [hc]
+    | false => simp [hrest.1, hrest.2, hc]
+
+/-- **C31, the two models agree on pipelines without close requests**: the pipeline model then delivers for every request
+the expected response, in order, and leaves the connection open — the very list `C31_n_in_n_out_ordered` proves the
+step model delivers under every schedule. -/
+theorem C31_pipeline_agrees_when_good (app : Req → AppResp) (reqs : List Req) (hwf : ∀ q ∈ reqs, WFReq app q)
+    (hnc : ∀ q ∈ reqs, q.close = false) :
+    pipeline app reqs = (reqs.map (fun q => (q, some (expected app q))), true) := by
+  have h := C31_close_ends_pipeline app reqs hwf
+  have hu : uptoClose reqs = reqs := by
+    clear h hwf
+    induction reqs with
+    | nil => rfl
+    | cons q rest ih =>
+      simp only [uptoClose, hnc q (by simp), Bool.false_eq_true, if_false, ih (fun x hx => hnc x (by simp [hx]))]
+  rw [hu] at h
+  exact Prod.ext h.1 (h.2.2 hnc)
+
+/-! ### every response written is framed -/
+
+def HeadsOk (items : List Item) : Prop := ∀ t f, Item.head t f ∈ items → f ≠ Framing.untilClose
+
+theorem write_headsOk (r : Responder) (tag : Tag) (msg : Bytes) (h : r.headed = false → WillFrame r) :
+    HeadsOk (r.write tag msg).2.1 := by
+  unfold HeadsOk
+  intro t f
+  unfold Responder.write
+  unfold WillFrame at h
+  cases hh : r.headed <;> cases hl : r.length <;> cases hc : r.chunkable <;> cases hk : r.chunked <;>
+    simp_all <;> (try split) <;> simp_all <;> (try split) <;> (intro hm; simp at hm; (try obtain ⟨_, rfl⟩ := hm); simp)
+
+theorem serviceOnce_headsOk (r : Responder) (tag : Tag) (script : List Bytes) (h : r.headed = false → WillFrame r) :
+    HeadsOk (r.serviceOnce tag script).2.2.1 := by
+  cases script with
+  | nil => simp only [Responder.serviceOnce]; exact write_headsOk r tag [] h
+  | cons p ps =>
+    simp only [Responder.serviceOnce]
+    split
+    · intro t f hm; cases hm
+    · exact write_headsOk r tag p h
+
+theorem serveItems_headsOk (tag : Tag) (ps : List Bytes) :
+    ∀ (r : Responder), (r.headed = false → WillFrame r) → HeadsOk (serveItems r tag ps) := by
+  induction ps with
+  | nil => intro r h; exact serviceOnce_headsOk r tag [] h
+  | cons p ps ih =>
+    intro r h
+    simp only [serveItems]
+    intro t f hm
+    rcases List.mem_append.1 hm with hm | hm
+    · exact serviceOnce_headsOk r tag (p :: ps) h t f hm
+    · split at hm
+      · cases hm
+      · exact ih _ (serviceOnce_heads r tag (p :: ps) h).2 t f hm
+
+/-- **C31, every response of a pipeline is framed** (every application, every request): every head the server writes
+for a request announces a Content-Length or chunking, never 'until close'. -/
+theorem C31_pipeline_responses_framed (a : AppResp) (q : Req) : HeadsOk (serveOne a q).1 := by
+  unfold serveOne
+  exact serveItems_headsOk _ _ _ (fun _ => start_willFrame _ _ rfl)
+
+/-- non-vacuity: five requests, the third with `Connection: close`: three answered in order, two never handled, the
+connection closed; without the close request all five are answered and the connection stays open -/
+def demoApp : Req → AppResp := fun q => if q.id = 1 then ⟨none, [[5], [], [6, 7]], false⟩ else ⟨some 2, [[7, q.id]], false⟩
+
+example :
+    (pipeline demoApp [⟨0, false, false⟩, ⟨1, false, false⟩, ⟨2, false, true⟩, ⟨3, false, false⟩, ⟨4, false, false⟩]).1.map
+        (fun x => (x.1.id, x.2.map (fun d => (d.tag, d.body))))
+      = [(0, some (0, [7, 0])), (1, some (1, [5, 6, 7])), (2, some (2, [7, 2]))]
+    ∧ (pipeline demoApp [⟨0, false, false⟩, ⟨1, false, false⟩, ⟨2, false, true⟩, ⟨3, false, false⟩]).2 = false
+    ∧ uptoClose [⟨0, false, false⟩, ⟨1, false, false⟩, ⟨2, false, true⟩, ⟨3, false, false⟩]
+        = [⟨0, false, false⟩, ⟨1, false, false⟩, ⟨2, false, true⟩]
+    ∧ (pipeline demoApp [⟨0, false, false⟩, ⟨1, false, false⟩, ⟨3, false, false⟩]).2 = true
+    ∧ WFReq demoApp ⟨1, false, false⟩ := by
+  refine ⟨by decide +kernel, by decide +kernel, by decide +kernel, by decide +kernel, ?_⟩
+  unfold WFReq WFApp; simp [bodylessFor, demoApp]
 
 end Ioflo.KeepAlive
